@@ -18,8 +18,9 @@ fn random_float(min: Value, max: Value) -> Resolved {
 }
 
 fn get_range(min: Value, max: Value) -> std::result::Result<Range<f64>, &'static str> {
-    let min = min.try_float().expect("min must be a float");
-    let max = max.try_float().expect("max must be a float");
+    // the arguments may only be typed at runtime: anything but a float is an error
+    let min = min.try_float().map_err(|_| "min must be a float")?;
+    let max = max.try_float().map_err(|_| "max must be a float")?;
 
     if max <= min {
         return Err(INVALID_RANGE_ERR);
